@@ -14,7 +14,7 @@ SOCK_TRUSTED = [
 ]
 
 PROXY_TRUSTED = [
-    "translated from the C++ on every run: ProxySocket::onUpstreamReadyRead, onUpstreamError, onDownstreamReadyRead of proxysocket.cpp over the model's Proxy.St in the vocabulary of Qhttp/Model/PxPrim.lean (calls on the downstream HTTP socket = the socket model's API; what a socket hands out when read = a parameter; trusted); bridge theorems QhttpBridge.Proxy.* prove them equal to Proxy.onUpstreamReadyRead / onUpstreamError / the branch relayReads takes; onUpstreamConnected (the upstream request head) is tied by the scenario comparison only",
+    "translated from the C++ on every run: ProxySocket::onUpstreamReadyRead, onUpstreamError, onDownstreamReadyRead of proxysocket.cpp over the model's Proxy.St in the vocabulary of Qhttp/Model/PxPrim.lean (calls on the downstream HTTP socket = the socket model's API; what a socket hands out when read = a parameter; trusted); bridge theorems QhttpBridge.Proxy.* prove them equal to Proxy.onUpstreamReadyRead / onUpstreamError / the branch relayReads takes; onUpstreamConnected (request line, forwarded headers, flush of the buffered body) is proved equal to the model's upstreamHead + buffered bytes (onUpstreamConnected_eq; the reverse loop over X-Forwarded-For values by induction)",
 ]
 
 FS_TRUSTED = [
@@ -149,7 +149,7 @@ SOCK_ALL = _sock("SetStatusCode", "SetHeader", "SetHeaders", "WriteHeaders", "Wr
                  "BytesAvailable", "IsHeadersParsed", "ContentLength", "ReadData", "ReadDataSlot", "OnBytesWritten", "OnReadChannelFinished",
                  "ReadHeaders", "OnReadyRead")
 RANGE_ALL = ["QhttpBridge.Range.Base"] + ["QhttpBridge.Range." + n for n in ("IsValid", "From", "To", "Length", "DataSize", "Ctor3", "CtorResize")]
-PROXY_ALL = ["QhttpBridge.Proxy.Base"] + ["QhttpBridge.Proxy." + n for n in ("OnUpstreamError", "OnUpstreamReadyRead", "OnDownstreamReadyRead")]
+PROXY_ALL = ["QhttpBridge.Proxy.Base"] + ["QhttpBridge.Proxy." + n for n in ("OnUpstreamError", "OnUpstreamReadyRead", "OnDownstreamReadyRead", "OnUpstreamConnected")]
 
 # parser.cpp: ONE module, with no entry in BRIDGE_NEEDS on purpose: every theorem of QhttpBridge.Parser is proved for the translated
 # function AND for the model's stand-in the translator emits for a function outside its subset (`first | stand-in | translated`
@@ -182,6 +182,7 @@ BRIDGE_NEEDS = {
     "QhttpBridge.Tables": ["SocketPrivate::statusReason", "Parser::parseRequestHeaders", "ProxySocket::methodToString"],
     "QhttpBridge.Proxy.OnUpstreamError": ["ProxySocket::onUpstreamError"], "QhttpBridge.Proxy.OnUpstreamReadyRead": ["ProxySocket::onUpstreamReadyRead"],
     "QhttpBridge.Proxy.OnDownstreamReadyRead": ["ProxySocket::onDownstreamReadyRead"],
+    "QhttpBridge.Proxy.OnUpstreamConnected": ["ProxySocket::onUpstreamConnected"],
 }
 
 BRIDGES = {
